@@ -111,6 +111,21 @@ func (c *Ctx) Fail(rule, kind, fn, construct, pos, detail string, facts ...strin
 
 func (c *Ctx) FailX(o Oblig) { c.add(o) }
 
+// shareRule runs a rule of a sibling property and reports its obligations under this property with rule id `to`:
+// properties overlap (a stale hand-over counter breaks C07, the fresh-nonce clause of C02 and the counter invariant of
+// C15 alike), and each property's check must stand on its own. keep filters the obligations taken over (nil = all).
+func (c *Ctx) shareRule(fn func(*Ctx), from, to, doc string, keep func(Oblig) bool) {
+	c.Rule(to, doc, 1)
+	sub := NewCtx(c.P, c.Property, c.Tier)
+	fn(sub)
+	for _, o := range sub.obs {
+		if o.Rule == from && (keep == nil || keep(o)) {
+			o.Rule = to
+			c.add(o)
+		}
+	}
+}
+
 // Anchor failure: a role the rule needs could not be resolved in the source.
 func (c *Ctx) Anchor(rule, what string) {
 	c.add(Oblig{Rule: rule, Func: "-", Construct: what, Pos: "-", Kind: "anchor", Detail: "anchor could not be resolved: " + what})
